@@ -155,6 +155,9 @@ func runLifeProfile(l *Life, profile string, n, steps int) {
 			p = SynProfile()
 		case "mergey":
 			p = MergeyProfile()
+		case "leanmulti":
+			l.LeanMultiScenario(fmt.Sprintf("%s-%d", profile, i))
+			continue
 		case "sweep":
 			l.light = true
 			l.SweepScenario(fmt.Sprintf("%s-%d", profile, i))
